@@ -59,3 +59,10 @@ Theorem c19_auto_on_others : forall ph a v now s p,
   get_attr (sto (fst (api_set_attr ph a v now s))) b k_updated = get_attr (sto s) b k_updated.
 Proof. exact set_attr_touches_only_self. Qed.
 Print Assumptions c19_auto_on_others.
+
+(* non-vacuity (Proofs/NonVacuous.v; concrete reachable states, by vm_compute) *)
+From NixV Require Proofs.NonVacuous.
+(* a live handle on which force and an automatic-timestamp setter succeed *)
+Example c19_hypotheses_met := NonVacuous.nv_force.
+Check c19_hypotheses_met.
+Print Assumptions c19_hypotheses_met.
